@@ -193,6 +193,42 @@ SEEDS.update({
            "a record of queue a torn between its two frames by a crash, recovery, an append to ANOTHER queue as the first write, second restart: that append is lost"),
 })
 
+# fourth round: nine more sub-agents (C05 C06 C07 C11 C13 C14 C15 C16 C17), same "hard for a random generator" brief
+SEEDS.update({
+ "C05-6": ("the empty-batch no-op is decided (peekable) before the explicit position is validated",
+           "append_records(q, Some(p), <empty batch>) with p strictly older than the last position: Ok(no-op) instead of Err(Past)"),
+ "C05-7": ("MemQueue::range merges the Included and Excluded start-bound arms (take_while stops instead of skipping)",
+           "range(q, (Bound::Excluded(p), _)) with p exactly a retained position and >= 1 record after it returns nothing"),
+ "C06-6": ("the replay loop's FileNumber handle is declared before the loop and lives until after the GC at open",
+           "all queues empty, an append straddling two WAL files torn by a crash after the roll-over: the re-opened directory keeps [N, N+1] instead of [N+1]"),
+ "C06-7": ("append_records attributes records to a cached 'file being written' that only appends refresh",
+           "a ~20-byte Truncate / DeleteQueue / RecordPosition entry is the write that crosses a file boundary; the stale handle then pins the old file"),
+ "C07-6": ("end of log recognised by the 4 checksum bytes of a frame header being zero (same mechanism as C18-6)",
+           "a frame whose CRC-32 is exactly 0 (2^-32 per frame for random payloads; forced by choosing the last 4 payload bytes)"),
+ "C07-7": ("within_record derived from the frame type: Middle/Last frames are always appended, a record is returned on every Full/Last",
+           "an entry straddling two WAL files whose head file has been garbage-collected: the orphan tail at the start of the next file is returned as an entry"),
+ "C11-6": ("RollingReader::next_block treats a NotFound error when opening the NEXT wal file as 'file holds no block' and skips it",
+           "WAL of >= 2 files, fault exactly at the open of a non-first file, kind exactly NotFound: open returns Ok without that file's records"),
+ "C11-7": ("FrameReader classifies an io::Error of kind InvalidData from next_block() as a corrupted block",
+           "fault at a non-first block read with kind InvalidData: transient -> open Ok (silently), persistent -> open never returns"),
+ "C13-6": ("the retry-of-last-position no-op calls persist_on_policy() before returning",
+           "OnDelay policy that is due + earlier accepted calls still buffered: the no-op flushes them (WAL file bytes change)"),
+ "C13-7": ("the empty-batch early return replaced by a single-exit structure that falls through persist_on_policy()",
+           "as C13-6, for an empty batch on an existing queue"),
+ "C14-6": ("FrameWriter::persist(FlushAndFsync) writes the end-of-block padding when remaining <= HEADER_LEN (off by one: 7 is room for a header-only frame)",
+           "a record ending exactly 7 bytes before a block boundary + an fsyncing persist at that moment + a later call + clean restart: the log ends there under fsync policies only"),
+ "C15-6": ("write_frame measures the bytes written as the difference of num_bytes_remaining_in_block() before/after (mod 32768)",
+           "a call starting 1..6 bytes before a block boundary whose entry is >= ~32 KiB: reported 32768 too small"),
+ "C15-7": ("the header-only First frame written when exactly 7 bytes remain in the block is not added to the total",
+           "an entry starting exactly 7 bytes before a block boundary: under-reports by 7"),
+ "C16-6": ("truncate_head drains a >= 8 MiB payload buffer only up to a multiple of 4096 (page-wise release)",
+           "a single queue holding >= 8 MiB in memory, partially truncated, evicted size not a multiple of 4096: up to 4095 dead bytes stay counted"),
+ "C17-6": ("filename_to_position uses split_at(4) instead of starts_with + slicing",
+           "a foreign file whose 24-byte UTF-8 name has a multi-byte character straddling byte offset 4: open panics"),
+ "C17-7": ("Directory::open skips directories and symlinks instead of everything that is not a regular file",
+           "a unix socket / FIFO / device node named wal-<20 digits>: opened as a WAL file"),
+})
+
 def parse_matrix(name):
     path = f"/tmp/seedmatrix_final/{name}.log"
     if not os.path.exists(path):
